@@ -224,6 +224,21 @@ func checkC11(r *Run) {
 			r.fail("r4", "chunk: unexpected loop exit", ex.Ret.Pos(), "loop exit %s under facts %s is none of: error, short chunk, buffer exhausted", r.L.str(ex.Ret), describePaths(ex.St))
 		}
 	}
+	// the exhaustion test written as the loop's condition: for total != len(p) {...}; return total, nil
+	if loop.Cond != nil {
+		for _, ex := range db.Exits[ch] {
+			if ex.Ret == nil || ex.St.Dead || len(ex.Ret.Results) != 2 || ex.Ret.Pos() < loop.End() {
+				continue
+			}
+			if ex.St.holds(total+" == len("+pN+")", true) {
+				okD := r.L.str(ex.Ret.Results[0]) == total && isNilIdent(info, unparen(ex.Ret.Results[1]))
+				r.check(okD, "r4", "chunk: an exhausted buffer ends the loop", ex.Ret.Pos(), "total == len(p) → return total, nil", "when the buffer is exhausted the function returns "+r.L.str(ex.Ret))
+				sawDone = sawDone || okD
+			} else {
+				r.fail("r4", "chunk: unexpected loop exit", ex.Ret.Pos(), "the loop is left towards %s under facts %s although the buffer is not known to be exhausted", r.L.str(ex.Ret), describePaths(ex.St))
+			}
+		}
+	}
 	r.check(sawErr && sawShort && sawDone, "r4", "chunk: the three loop exits exist", loop.Pos(), "error / short chunk / exhausted",
 		fmt.Sprintf("missing loop exit (error=%v, short chunk=%v, buffer exhausted=%v)", sawErr, sawShort, sawDone))
 
